@@ -312,6 +312,8 @@ structure St where
   bytes : Bytes := []
   have_ : Bool := false
   flags : List Nat := []
+  /-- the dictionary of the session (`sess` / `sreset` / `sload`); `none`: no session -/
+  sdict : Option Dict := none
 
 /-- positions of the flag bytes of the Listener records that are read flag-directed -/
 def flagBytes (info : Info) (chunks : List (List WItem × List WSch)) : List Nat :=
@@ -459,6 +461,21 @@ def lisStep (t : List String) : String :=
 def step' (st : St) (t : List String) : St × String :=
   match t with
   | "lisv" :: r => (st, lisStep r)
+  | ["sess"] => ({ st with sdict := some [] }, "ok")
+  | "sreset" :: texts =>
+    -- `ScriptMaster::Reset()`: the dictionary is emptied (the predefined strings it is refilled with do not matter to a
+    -- reader that interns, `C10_const_string_any_dictionary`), then the given texts are interned in order
+    match st.sdict, texts.mapM bytes? with
+    | some _, some ts => if ts.any (·.isEmpty) then (st, "bad-op") else ({ st with sdict := some (Dict.loadAll [] ts).1 }, "ok")
+    | _, _ => (st, "bad-op")
+  | ["sload"] =>
+    match st.sdict with
+    | some d =>
+      if !st.have_ then (st, "bad-op") else
+      match decodeWD cfg st.classes st.info st.sch d st.bytes with
+      | .ok L => ({ st with sdict := some L.dict }, "ok " ++ showLoaded L)
+      | .error e => (st, "err " ++ errName e)
+    | none => (st, "bad-op")
   | _ => step st t
 
 def main : IO Unit := Driver.runLoop step' ({} : St)
